@@ -1,0 +1,6 @@
+//! Facade for the RIB unit (C01/C02/C03): a non-test constructor for
+//! `RibUnitRunner`, `process_update`, and the `Rib` behind it. Re-exports
+//! only; see `units/rib_unit/verif_hooks_c01.rs`.
+pub use crate::units::rib_unit::unit::verif_hooks_c01::{
+    mk_runner, process_update, rib, Rib, RibUnitRunner,
+};
